@@ -86,13 +86,15 @@ def explore(pid, cases, rep, nontrivial, extra_checks=(), keep=None, use_corpus=
     reqs, idx = [], []
     stats = collections.Counter()
     dist = collections.Counter()
-    # the decidable side conditions of the hardware-level theorems (Side.v), evaluated per accepted description:
-    # how much of the explored space the universal theorems C02_hw_delivered_model / C03_hw_delivered_model /
-    # C05_model_signals speak about (a description outside them is still decided by the certified checker)
+    # the decidable side conditions of the hardware-level theorems (Side.v), evaluated per accepted description with the
+    # generator's own (verified) oracle sp_nx: how much of the explored space the universal theorems
+    # C02_hw_delivered_nx / C03_hw_delivered_nx / C14_hw_shortest_nx / C05_model_signals speak about (a description
+    # outside them is still decided by the certified checker)
     if pid in SIDE_PROPS:
         acc = [i for i, m in enumerate(mods) if isinstance(m, list) and m and m[0] == "ok"]
         sides = common.run_model([modelio.request(cases[i][0], cmd="side") for i in acc]) if acc else []
-        names = ["names_sep_req", "names_sep_rsp", "names_sep_wide", "single_attach", "links_typed", "degrees_fit"]
+        names = ["names_sep_req", "names_sep_rsp", "names_sep_wide", "single_attach", "links_typed", "degrees_fit",
+                 "attached_req", "attached_rsp", "transit_id_or_first_hops_src"]
         for i, sd in zip(acc, sides):
             if isinstance(sd, list) and sd and sd[0] == "ok":
                 flags = [b is True for b in sd[1:]]
